@@ -6,6 +6,6 @@ git -C /repo worktree add -q --detach "$W" HEAD || exit 2
 git -C "$W" apply "$P" || { git -C /repo worktree remove --force "$W"; exit 2; }
 export VERIF_ALT_TARGET=/tmp/confirm/quick-alt-$$ VERIF_OUT=/tmp/confirm/quick-out-$$; mkdir -p $VERIF_OUT
 for c in "$@"; do
-  FATFS_PATH="$W" timeout 1200 ${CHECK_CMD:-/verif/check} $c quick 2>&1 | grep -E "^(VIOLATION|  signature|  message|C[0-9]+ quick|MACH)" | cut -c1-300 | head -12
+  FATFS_PATH="$W" timeout 1200 ${CHECK_CMD:-/verif/check} $c quick 2>&1 | grep -a -E "^(VIOLATION|  signature|  message|C[0-9]+ quick|MACH)" | cut -c1-300 | head -12
 done
 rm -rf $VERIF_OUT $VERIF_ALT_TARGET; git -C /repo worktree remove --force "$W"
